@@ -9,15 +9,20 @@ A deliberately small, explicit state machine of exactly the mutable slots `eaopa
   `restricted` (`set_restricted_grid(start, end, freq)`: the window and frequency of the asset that
   called last) and `disc` (`set_wacc(wacc)`: the wacc whose discount factors are stored).  Several
   grid objects may be alive (`Nat` identifies the object); all assets of a portfolio share one.
-* every asset has the attribute `timegrid` (`AssetSt.grid`, `none` = attribute absent);
-  a `ScaledAsset` wraps a base asset, a `StructuredAsset` wraps a list of inner assets: the wrapped
-  assets have their own `timegrid` attribute and `start` / `end` (`SubSt`), the latter are
-  overwritten (clipped) during the structured set-up and restored afterwards.
+* the assets of a portfolio are object TREES (`Asset`): a `ScaledAsset` wraps a base asset, a
+  `StructuredAsset` / `LinkedAsset` wraps a list of inner assets, and the wrapped assets may be wrappers
+  again (scaled over structured, structured holding scaled / structured / linked, to any depth).
+  Every object of the tree has the attributes `timegrid` (`ObjSt.grid`, `none` = attribute absent),
+  `start` and `end` (`ObjSt.start`, `ObjSt.stop`): the latter two are overwritten (clipped by the
+  wrapper's CURRENT window) for the duration of the wrapper's set-up and restored afterwards (`finally:`).
+  An object is addressed by its path (`Addr`): `[a]` is the `a`-th asset of the portfolio, `ad ++ [i]` the
+  `i`-th asset wrapped by the object `ad` (the base asset of a scaled asset is number 0).
 * a `Portfolio` has the attribute `timegrid` (`PyState.pf`).
 
 A primitive problem builder (contract, storage, ...) READS the two slots of the grid object it works
-on (`self.timegrid.restricted.*`, `...restricted.discount_factors`).  `Used` records what it read:
-that is the only way state can leak into a problem, all other inputs are arguments.
+on (`self.timegrid.restricted.*`, `...restricted.discount_factors`); so do a `ScaledAsset` (length of its
+restricted grid for the fix costs) and a `LinkedAsset` (`self.timegrid.restricted.T`: the loop over the steps).
+`Used` records what they read: that is the only way state can leak into a problem, all other inputs are arguments.
 
 `setupSt v env s call` mirrors the code literally; `v : Version` selects the code version, `current`
 is the tree after the repairs:
@@ -27,20 +32,26 @@ is the tree after the repairs:
   grid argument the builder read whatever the slots held.
 * `scaledOwnGrid` (commit 19afd7c): a `ScaledAsset` called without grid argument hands its OWN
   `timegrid` attribute to the base asset (`if (timegrid is None) and hasattr(self, 'timegrid'):
-  timegrid = self.timegrid`, assets.py:2496-2497).  `false`: the base asset used its own attribute.
-`setupPure env ptrs call` is what the builders SHOULD read: the asset's own window, frequency and
-wacc on the grid the call names (or, without grid argument, on the grid the asset itself was put on:
-the assets' own `timegrid` attributes are legitimate input, `ptrs`; a scaled asset that never saw a
-grid itself falls back to its base asset's).
+  timegrid = self.timegrid`, assets.py:2510-2511).  `false`: the base asset used its own attribute.
+`setupPure env ptrs call` is what the builders SHOULD read: the object's own window (clipped by the windows
+of all wrappers above it INSIDE the object the call names), frequency and wacc on the grid the call names (or,
+without grid argument, on the grid the object itself was put on: the objects' own `timegrid` attributes are
+legitimate input, `ptrs`; a scaled asset that never saw a grid itself falls back to its base asset's).
+
+A `LinkedAsset` is a structured asset (`linked = true`) that, after the structured set-up, reads the restricted
+slot of its grid: what the wrapped asset set up LAST left there (known finding F-09e is about exactly this read;
+`lastWrite`).  A linked asset over an EMPTY portfolio has no variable to link (its loop raises at the first
+step): no read is recorded for it.
 
 Known finding H3 is part of the model: `setupSplit g tmp` (`Portfolio.setup_split_optim_problem`)
-sets every interval up on a temporary grid object and then puts the portfolio and the TOP-LEVEL assets
-back on `g` (portfolio.py:293-295); wrapped assets keep the grid of the last interval, which a direct
-`setupSub` (set-up of a wrapped asset itself) without grid argument then uses.
+sets every interval up on a temporary grid object and then (`finally:`, also after a failure: commit eb7f7dd) puts the
+portfolio and the TOP-LEVEL assets back on `g` (portfolio.py:252-259); wrapped assets (at every depth) keep the grid of the last interval, which
+a direct set-up of a wrapped asset without grid argument then uses.
 
 Not in this model (covered only by the history oracle `harness/comp/history.py`): Python object
-aliasing of parameter containers, pandas in-place semantics (`prices_to_grid`), the numeric content of
-restricted grids and discount factors (models `EAO.Model.Grid`), exceptions other than "no grid set".
+aliasing of parameter containers (one asset object at two places of a tree), pandas in-place semantics
+(`prices_to_grid`), the numeric content of restricted grids and discount factors (models `EAO.Model.Grid`),
+exceptions other than "no grid set".
 -/
 namespace EAO.State
 
@@ -61,21 +72,33 @@ structure Version where
 /-- the tree after commits 7e0d787 and 19afd7c -/
 def current : Version := {}
 
+/-- the object tree of one asset: `scaled p base` = `ScaledAsset(base_asset = base)`,
+    `structured p false inner` = `StructuredAsset(Portfolio(inner))`, `structured p true inner` = `LinkedAsset(...)` -/
 inductive Asset where
   | plain (p : Params)
-  | scaled (p : Params) (base : Params)
-  | structured (p : Params) (inner : List Params)
-  deriving Repr, Inhabited
+  | scaled (p : Params) (base : Asset)
+  | structured (p : Params) (linked : Bool) (inner : List Asset)
+  deriving Inhabited
 
 def Asset.params : Asset → Params
   | .plain p => p
   | .scaled p _ => p
-  | .structured p _ => p
+  | .structured p _ _ => p
 
-def Asset.subs : Asset → List Params
+/-- the objects directly wrapped -/
+def Asset.subs : Asset → List Asset
   | .plain _ => []
   | .scaled _ b => [b]
-  | .structured _ inner => inner
+  | .structured _ _ inner => inner
+
+abbrev Addr := List Nat
+
+/-- the object at a path below `x` -/
+def Asset.sub? : Asset → List Nat → Option Asset
+  | x, [] => some x
+  | x, i :: r => match x.subs[i]? with
+    | some c => c.sub? r
+    | none => none
 
 abbrev Slot := Option Int × Option Int × Option Nat
 
@@ -85,34 +108,49 @@ structure GridObj where
   disc       : Option Rat := none
   deriving DecidableEq, Repr, Inhabited
 
-/-- mutable attributes of a wrapped (base / inner) asset -/
-structure SubSt where
+/-- mutable attributes of one asset object -/
+structure ObjSt where
   grid  : Option Nat := none
   start : Option Int := none
   stop  : Option Int := none
   deriving DecidableEq, Repr, Inhabited
 
-structure AssetSt where
-  grid : Option Nat := none
-  sub  : List SubSt := []
-  deriving DecidableEq, Repr, Inhabited
+abbrev Grids := Nat → GridObj
+abbrev Objs := Addr → ObjSt
+
+def Objs.set (O : Objs) (ad : Addr) (o : ObjSt) : Objs := fun a => if a = ad then o else O a
 
 structure PyState where
-  grids  : Nat → GridObj
-  assets : Nat → AssetSt
-  pf     : Option Nat
+  grids : Grids
+  objs  : Objs
+  pf    : Option Nat
 
 abbrev Env := List Asset
 
+/-- the `a`-th asset of the portfolio (an index beyond the list behaves like a plain asset without window: total functions) -/
 def Env.asset (env : Env) (a : Nat) : Asset := env.getD a (.plain {})
 
-def subInit (q : Params) : SubSt := { grid := none, start := q.start, stop := q.stop }
+/-- the object an address names -/
+def Env.at (env : Env) : Addr → Option Asset
+  | [] => none
+  | a :: r => (env.asset a).sub? r
+
+abbrev Win := Option Int × Option Int
+
+def win (o : ObjSt) : Win := (o.start, o.stop)
+def pwin (q : Params) : Win := (q.start, q.stop)
+
+/-- the window an object was constructed with (`(none, none)` where there is no object) -/
+def iwin (env : Env) (ad : Addr) : Win :=
+  match env.at ad with
+  | some x => pwin x.params
+  | none => (none, none)
 
 /-- freshly constructed objects: no grid anywhere, no slot written -/
 def init (env : Env) : PyState :=
-  { grids := fun _ => {}, assets := fun a => { grid := none, sub := (env.asset a).subs.map subInit }, pf := none }
+  { grids := fun _ => {}, objs := fun ad => { grid := none, start := (iwin env ad).1, stop := (iwin env ad).2 }, pf := none }
 
-/-- what a primitive builder reads -/
+/-- what a builder reads -/
 structure Used where
   grid       : Nat
   restricted : Option Slot
@@ -120,7 +158,7 @@ structure Used where
   deriving DecidableEq, Repr, Inhabited
 
 inductive Err where
-  | noGrid      -- 'Set timegrid of asset before creating optim problem'
+  | noGrid      -- 'Set timegrid of asset before creating optim problem' / no attribute 'timegrid'
   deriving DecidableEq, Repr
 
 abbrev Result := Except Err (List Used)
@@ -131,8 +169,6 @@ instance : DecidableEq Result := fun a b =>
   | .error x, .error y => if h : x = y then isTrue (by rw [h]) else isFalse (by intro h'; cases h'; exact h rfl)
   | .ok _, .error _ => isFalse (by intro h; cases h)
   | .error _, .ok _ => isFalse (by intro h; cases h)
-
-abbrev Grids := Nat → GridObj
 
 /-- `Asset.set_timegrid` on the grid object `g`: `set_wacc(wacc)` and `set_restricted_grid(start, end, freq)` -/
 def writeSlots (G : Grids) (g : Nat) (start stop : Option Int) (freq : Option Nat) (wacc : Rat) : Grids :=
@@ -164,7 +200,7 @@ def buildPlain (rederive : Bool) (G : Grids) (ptr : Option Nat) (start stop : Op
     | none => (G, none, .error .noGrid)          -- `if not hasattr(self, 'timegrid'): raise`
     | some g => (G, some g, .ok (readSlots G g))   -- pre-fix: reads the slots as they are
 
-/-- start / end of an inner asset clipped by the structured asset's window (portfolio.py:372-378) -/
+/-- start / end of a wrapped asset clipped by the wrapper's window (portfolio.py:372-378, assets.py:2517-2522) -/
 def clipStart (own wrapper : Option Int) : Option Int :=
   match wrapper, own with
   | none, o => o
@@ -177,70 +213,131 @@ def clipStop (own wrapper : Option Int) : Option Int :=
   | some w, none => some w
   | some w, some o => some (if o ≤ w then o else w)     -- min
 
-/-- the inner portfolio's loop over its assets, every one called with `timegrid = g`;
-    `subs` are the (already clipped) inner assets; an exception aborts the loop -/
-def buildInner (rederive : Bool) (g : Nat) : Grids → List (SubSt × Params) → Grids × List SubSt × Except Err (List Used)
-  | G, [] => (G, [], .ok [])
-  | G, (st, q) :: rest =>
-    match buildPlain rederive G st.grid st.start st.stop q.freq q.wacc (some g) with
-    | (G1, ptr, .ok u) =>
-      match buildInner rederive g G1 rest with
-      | (G2, sts, .ok us) => (G2, { st with grid := ptr } :: sts, .ok (u :: us))
-      | (G2, sts, .error e) => (G2, { st with grid := ptr } :: sts, .error e)
-    | (G1, ptr, .error e) => (G1, { st with grid := ptr } :: rest.map (·.1), .error e)
+/-- is `a` the address of one of the first `n` objects wrapped by `ad`? -/
+def isKid (ad : Addr) (n : Nat) (a : Addr) : Bool :=
+  a.dropLast == ad && (match a.getLast? with | some i => decide (i < n) | none => false)
 
-/-- body of `StructuredAsset.setup_optim_problem` once the grid `g` is known (`G0`: grid objects after the
-    wrapper's own `set_timegrid`, if any): clip start / end of every inner asset and `a.set_timegrid(timegrid)`,
-    set up the inner portfolio with `timegrid = g`, and (`finally:`) give the inner assets their own start / end back -/
-def structuredBody (rederive : Bool) (G0 : Grids) (g : Nat) (p : Params) (inner : List Params) (sub : List SubSt) :
-    Grids × List SubSt × Result :=
-  let clipped : List (SubSt × Params) := (sub.zip inner).map fun sq =>
-    ({ grid := some g, start := clipStart sq.1.start p.start, stop := clipStop sq.1.stop p.stop }, sq.2)
-  let G1 := clipped.foldl (fun G sq => writeSlots G g sq.1.start sq.1.stop sq.2.freq sq.2.wacc) G0
-  match buildInner rederive g G1 clipped with
-  | (G2, sts, r) => (G2, (sts.zip sub).map fun so => { so.1 with start := so.2.start, stop := so.2.stop }, r)
+/-- first loop of `StructuredAsset.setup_optim_problem` (object part): every inner asset gets start / end clipped by the
+    wrapper's window `s e` and `a.set_timegrid(timegrid)` (its own attribute points to `g`) -/
+def clipKids (ad : Addr) (n : Nat) (s e : Option Int) (g : Nat) (O : Objs) : Objs :=
+  fun a =>
+    let o := O a      -- (looked up once: the objects are closures over all earlier updates)
+    if isKid ad n a then { grid := some g, start := clipStart o.start s, stop := clipStop o.stop e } else o
 
-/-- `asset.setup_optim_problem(prices, timegrid = arg)` for asset number `a` -/
-def setupAsset (v : Version) (env : Env) (s : PyState) (a : Nat) (arg : Option Nat) : PyState × Result :=
-  let st := s.assets a
-  let upd (G : Grids) (st' : AssetSt) : PyState :=
-    { s with grids := G, assets := fun i => if i = a then st' else s.assets i }
-  match env.asset a with
-  | .plain p =>
-    match buildPlain v.rederive s.grids st.grid p.start p.stop p.freq p.wacc arg with
-    | (G, ptr, r) => (upd G { st with grid := ptr }, r.map fun u => [u])
-  | .scaled p base =>
-    -- `op = self.base_asset.setup_optim_problem(prices, timegrid)`; `self.set_timegrid(self.base_asset.timegrid)`;
-    -- the wrapper then reads `self.timegrid.restricted.dt.sum()`
-    let b := st.sub.headD (subInit base)
-    -- 19afd7c: `if (timegrid is None) and hasattr(self, 'timegrid'): timegrid = self.timegrid`
-    let arg' : Option Nat := match arg with
-      | some g => some g
-      | none => if v.scaledOwnGrid then st.grid else none
-    -- 0e4cac8: the base asset's start / end are clipped by the scaled asset's own window for the duration of the
-    -- set-up and restored afterwards (`finally:`), as a structured asset does with its inner assets
-    match buildPlain v.rederive s.grids b.grid (clipStart b.start p.start) (clipStop b.stop p.stop) base.freq base.wacc arg' with
-    | (G, bptr, .error e) => (upd G { st with sub := [{ b with grid := bptr }] }, .error e)
-    | (G, none, .ok _) => (upd G { st with sub := [{ b with grid := none }] }, .error .noGrid)   -- unreachable: a built asset has a grid
-    | (G, some g, .ok u) =>
-      let G' := writeSlots G g p.start p.stop p.freq p.wacc
-      (upd G' { grid := some g, sub := [{ b with grid := some g }] }, .ok [u, readSlots G' g])
-  | .structured p inner =>
-    -- `if timegrid is None: timegrid = self.timegrid else: self.set_timegrid(timegrid)`
-    match arg, st.grid with
-    | none, none => (s, .error .noGrid)
-    | none, some g =>
-      match structuredBody v.rederive s.grids g p inner st.sub with
-      | (G2, sub', r) => (upd G2 { grid := some g, sub := sub' }, r)
-    | some g, _ =>
-      match structuredBody v.rederive (writeSlots s.grids g p.start p.stop p.freq p.wacc) g p inner st.sub with
-      | (G2, sub', r) => (upd G2 { grid := some g, sub := sub' }, r)
+/-- the same loop, grid part: the `set_timegrid` calls write the slots of `g` one after the other (`i`: number of the first asset
+    of the list; `O`: the objects BEFORE the loop) -/
+def writeKids (ad : Addr) (s e : Option Int) (g : Nat) (O : Objs) : List Asset → Nat → Grids → Grids
+  | [], _, G => G
+  | c :: cs, i, G =>
+    let o := O (ad ++ [i])
+    writeKids ad s e g O cs (i + 1) (writeSlots G g (clipStart o.start s) (clipStop o.stop e) c.params.freq c.params.wacc)
+
+/-- `orig_start_end = [(a.start, a.end) for a in self.portfolio.assets]`: the windows of the `n` objects wrapped by `ad` -/
+def kidWins (ad : Addr) (n : Nat) (O : Objs) : List Win :=
+  (List.range n).map fun i => win (O (ad ++ [i]))
+
+/-- `finally:` the inner assets get the start / end back they had before (`orig`, one entry per inner asset) -/
+def restoreKids (ad : Addr) (orig : List Win) (O : Objs) : Objs :=
+  fun a =>
+    let o := O a
+    if isKid ad orig.length a then
+      let w := orig.getD (a.getLast?.getD 0) (none, none)
+      { o with start := w.1, stop := w.2 }
+    else o
+
+/-- 19afd7c: the grid a scaled asset hands to its base asset: `if (timegrid is None) and hasattr(self, 'timegrid'): timegrid = self.timegrid` -/
+def scaledArg (v : Version) (arg ptr : Option Nat) : Option Nat :=
+  match arg with
+  | some g => some g
+  | none => if v.scaledOwnGrid then ptr else none
+
+/-- 0e4cac8: the base asset's start / end are clipped by the scaled asset's own (current) window for the duration of the set-up -/
+def scaledClip (O : Objs) (ad : Addr) : Objs :=
+  let o := O ad
+  let bo := O (ad ++ [0])
+  O.set (ad ++ [0]) { bo with start := clipStart bo.start o.start, stop := clipStop bo.stop o.stop }
+
+/-- `ScaledAsset.setup_optim_problem` after the set-up of the base asset returned `res` (`O`: the objects before the call):
+    `finally:` the base asset's own start / end back; `self.set_timegrid(self.base_asset.timegrid)`;
+    the wrapper then reads `self.timegrid.restricted.dt.sum()` -/
+def scaledFinish (p : Params) (ad : Addr) (O : Objs) : Grids × Objs × Result → Grids × Objs × Result
+  | (G2, O2, r) =>
+    let O3 := O2.set (ad ++ [0]) { O2 (ad ++ [0]) with start := (O (ad ++ [0])).start, stop := (O (ad ++ [0])).stop }
+    match r with
+    | .error e => (G2, O3, .error e)
+    | .ok us =>
+      match (O2 (ad ++ [0])).grid with
+      | none => (G2, O3, .error .noGrid)        -- unreachable: an asset that was set up has a grid
+      | some g =>
+        let G3 := writeSlots G2 g (O ad).start (O ad).stop p.freq p.wacc
+        (G3, O3.set ad { O ad with grid := some g }, .ok (us ++ [readSlots G3 g]))
+
+/-- `StructuredAsset.setup_optim_problem`: `if timegrid is None: timegrid = self.timegrid else: self.set_timegrid(timegrid)`:
+    the grid to work on and the grid objects after the wrapper's own `set_timegrid`, if any -/
+def structuredGrid (p : Params) (arg : Option Nat) (o : ObjSt) (G : Grids) : Option (Nat × Grids) :=
+  match arg with
+  | some g => some (g, writeSlots G g o.start o.stop p.freq p.wacc)
+  | none => match o.grid with
+    | some g => some (g, G)
+    | none => none
+
+/-- `StructuredAsset.setup_optim_problem` after the inner portfolio's set-up returned `res` (`Oa`: the objects before the inner
+    assets were clipped; `orig`: their windows then): `finally:` own start / end of the inner assets back; a `LinkedAsset` then loops
+    `for t in range(self.timegrid.restricted.T)` -/
+def structuredFinish (linked : Bool) (ad : Addr) (g : Nat) (orig : List Win) : Grids × Objs × Result → Grids × Objs × Result
+  | (G2, O2, r) =>
+    let O3 := restoreKids ad orig O2
+    match r with
+    | .error e => (G2, O3, .error e)
+    | .ok us => (G2, O3, .ok (if linked && orig.length != 0 then us ++ [readSlots G2 g] else us))
+
+/-- the reads of the assets set up before those of the rest of the loop -/
+def consRes (us : List Used) : Grids × Objs × Result → Grids × Objs × Result
+  | (G, O, .ok vs) => (G, O, .ok (us ++ vs))
+  | (G, O, .error e) => (G, O, .error e)
+
+mutual
+/-- `x.setup_optim_problem(prices, timegrid = arg)` for the object tree `x` living at address `ad` -/
+def setupTree (v : Version) : Asset → Addr → Option Nat → Grids → Objs → Grids × Objs × Result
+  | .plain p, ad, arg, G, O =>
+    match buildPlain v.rederive G (O ad).grid (O ad).start (O ad).stop p.freq p.wacc arg with
+    | (G', ptr, r) => (G', O.set ad { O ad with grid := ptr }, r.map fun u => [u])
+  | .scaled p b, ad, arg, G, O =>
+    -- `op = self.base_asset.setup_optim_problem(prices, timegrid)` between clipping and restoring the base asset's window
+    scaledFinish p ad O (setupTree v b (ad ++ [0]) (scaledArg v arg (O ad).grid) G (scaledClip O ad))
+  | .structured p linked inner, ad, arg, G, O =>
+    match structuredGrid p arg (O ad) G with
+    | none => (G, O, .error .noGrid)
+    | some (g, G0) =>
+      let Oa := O.set ad { O ad with grid := some g }
+      -- clip start / end of every inner asset and `a.set_timegrid(timegrid)`; then the inner portfolio: every inner asset is
+      -- called with `timegrid = g`
+      structuredFinish linked ad g (kidWins ad inner.length Oa)
+        (setupList v inner ad 0 g (writeKids ad (O ad).start (O ad).stop g Oa inner 0 G0)
+          (clipKids ad inner.length (O ad).start (O ad).stop g Oa))
+/-- the inner portfolio's loop over its assets (`i`: number of the first asset of the list), every one called with
+    `timegrid = g`; an exception aborts the loop -/
+def setupList (v : Version) : List Asset → Addr → Nat → Nat → Grids → Objs → Grids × Objs × Result
+  | [], _, _, _, G, O => (G, O, .ok [])
+  | x :: xs, ad, i, g, G, O =>
+    match setupTree v x (ad ++ [i]) (some g) G O with
+    | (G1, O1, .error e) => (G1, O1, .error e)
+    | (G1, O1, .ok us) => consRes us (setupList v xs ad (i + 1) g G1 O1)
+end
+
+/-- `obj.setup_optim_problem(prices, timegrid = arg)` for the object at address `ad` (top-level or wrapped, called directly) -/
+def setupAt (v : Version) (env : Env) (s : PyState) (ad : Addr) (arg : Option Nat) : PyState × Result :=
+  match env.at ad with
+  | none => (s, .ok [])            -- no such object
+  | some x =>
+    match setupTree v x ad arg s.grids s.objs with
+    | (G, O, r) => ({ s with grids := G, objs := O }, r)
 
 /-- `Portfolio.setup_optim_problem`'s loop: every asset is called with `timegrid = self.timegrid` -/
 def setupAll (v : Version) (env : Env) (g : Nat) : PyState → List Nat → PyState × Result
   | s, [] => (s, .ok [])
   | s, a :: rest =>
-    match setupAsset v env s a (some g) with
+    match setupAt v env s [a] (some g) with
     | (s1, .error e) => (s1, .error e)
     | (s1, .ok us) =>
       match setupAll v env g s1 rest with
@@ -248,10 +345,8 @@ def setupAll (v : Version) (env : Env) (g : Nat) : PyState → List Nat → PySt
       | (s2, .error e) => (s2, .error e)
 
 inductive Call where
-  | setTimegrid (a g : Nat)                 -- `asset.set_timegrid(tg)`
-  | setup (a : Nat) (arg : Option Nat)      -- `asset.setup_optim_problem(prices[, tg])`
-  | setTimegridSub (a i g : Nat)            -- `set_timegrid(tg)` on the `i`-th asset WRAPPED by asset `a`
-  | setupSub (a i : Nat) (arg : Option Nat) -- the same on the `i`-th asset WRAPPED by asset `a` (base / inner asset), called directly
+  | setTimegrid (ad : Addr) (g : Nat)       -- `obj.set_timegrid(tg)` (top-level asset `[a]` or wrapped asset)
+  | setup (ad : Addr) (arg : Option Nat)    -- `obj.setup_optim_problem(prices[, tg])` (top-level asset `[a]` or wrapped asset, called directly)
   | setupPortfolio (arg : Option Nat)       -- `portfolio.setup_optim_problem(prices[, tg])` (also cost samples)
   | setupSplit (g : Nat) (tmp : List Nat)   -- `portfolio.setup_split_optim_problem(prices, tg, ...)`; `tmp`: the interval grid objects
   | dcf (a : Nat)                           -- `asset.dcf(op, res)`: reads `self.timegrid.T` only
@@ -265,31 +360,14 @@ def setupPortfolioSt (v : Version) (env : Env) (s : PyState) (arg : Option Nat) 
   | none => (s0, .error .noGrid)
   | some g => setupAll v env g s0 (List.range env.length)
 
-/-- `Asset.set_timegrid(tg)` (inherited by every asset class: the wrapper's own attribute and the slots only) -/
-def setTimegridSt (env : Env) (s : PyState) (a g : Nat) : PyState :=
-  let p := (env.asset a).params
-  { s with grids := writeSlots s.grids g p.start p.stop p.freq p.wacc,
-           assets := fun i => if i = a then { s.assets a with grid := some g } else s.assets i }
-
-/-- `set_timegrid(tg)` called directly on the `i`-th asset wrapped by `a` (its CURRENT start / end) -/
-def setTimegridSubSt (env : Env) (s : PyState) (a i g : Nat) : PyState :=
-  let st := s.assets a
-  match st.sub[i]?, (env.asset a).subs[i]? with
-  | some b, some q =>
-    { s with grids := writeSlots s.grids g b.start b.stop q.freq q.wacc,
-             assets := fun j => if j = a then { st with sub := st.sub.set i { b with grid := some g } } else s.assets j }
-  | _, _ => s
-
-/-- direct set-up of the `i`-th asset wrapped by `a` -/
-def setupSubSt (v : Version) (env : Env) (s : PyState) (a i : Nat) (arg : Option Nat) : PyState × Result :=
-  let st := s.assets a
-  match st.sub[i]?, (env.asset a).subs[i]? with
-  | some b, some q =>
-    match buildPlain v.rederive s.grids b.grid b.start b.stop q.freq q.wacc arg with
-    | (G, ptr, r) =>
-      ({ s with grids := G, assets := fun j => if j = a then { st with sub := st.sub.set i { b with grid := ptr } } else s.assets j },
-       r.map fun u => [u])
-  | _, _ => (s, .ok [])        -- no such wrapped asset
+/-- `Asset.set_timegrid(tg)` (inherited by every asset class: the object's own attribute and the slots only; its CURRENT start / end) -/
+def setTimegridSt (env : Env) (s : PyState) (ad : Addr) (g : Nat) : PyState :=
+  match env.at ad with
+  | none => s
+  | some x =>
+    let o := s.objs ad
+    { s with grids := writeSlots s.grids g o.start o.stop x.params.freq x.params.wacc,
+             objs := s.objs.set ad { o with grid := some g } }
 
 /-- the loop over the intervals of a split set-up: `self.setup_optim_problem(prices_tmp, timegrid_tmp, ...)` -/
 def setupIntervals (v : Version) (env : Env) : PyState → List Nat → PyState × Result
@@ -302,26 +380,25 @@ def setupIntervals (v : Version) (env : Env) : PyState → List Nat → PyState 
       | (s2, .ok vs) => (s2, .ok (us ++ vs))
       | (s2, .error e) => (s2, .error e)
 
-/-- `for a in self.assets: a.set_timegrid(timegrid)` — top-level assets only (portfolio.py:294-295) -/
+/-- `for a in self.assets: a.set_timegrid(timegrid)` — top-level assets only (portfolio.py:258-259) -/
 def restoreTop (env : Env) (g : Nat) : PyState → List Nat → PyState
   | s, [] => s
-  | s, a :: rest => restoreTop env g (setTimegridSt env s a g) rest
+  | s, a :: rest => restoreTop env g (setTimegridSt env s [a] g) rest
 
 def setupSt (v : Version) (env : Env) (s : PyState) : Call → PyState × Result
-  | .setTimegrid a g => (setTimegridSt env s a g, .ok [])
-  | .setup a arg => setupAsset v env s a arg
-  | .setTimegridSub a i g => (setTimegridSubSt env s a i g, .ok [])
-  | .setupSub a i arg => setupSubSt v env s a i arg
+  | .setTimegrid ad g => (setTimegridSt env s ad g, .ok [])
+  | .setup ad arg => setupAt v env s ad arg
   | .setupPortfolio arg => setupPortfolioSt v env s arg
   | .setupSplit g tmp =>
+    -- eb7f7dd: `try: ... finally: self.set_timegrid(timegrid); for a in self.assets: a.set_timegrid(timegrid)`: the portfolio and
+    -- the TOP-LEVEL assets go back to the grid of the whole horizon, also when the set-up of an interval fails
     match setupIntervals v env s tmp with
-    | (s1, .error e) => (s1, .error e)          -- an exception leaves everything on the interval grid
-    | (s1, .ok us) => (restoreTop env g { s1 with pf := some g } (List.range env.length), .ok us)
+    | (s1, r) => (restoreTop env g { s1 with pf := some g } (List.range env.length), r)
   | .dcf _ => (s, .ok [])
   | .fillLevel a =>
-    let p := (env.asset a).params
-    match (s.assets a).grid with
-    | some g => ({ s with grids := writeRestricted s.grids g (p.start, p.stop, p.freq) }, .ok [])
+    let o := s.objs [a]
+    match o.grid with
+    | some g => ({ s with grids := writeRestricted s.grids g (o.start, o.stop, (env.asset a).params.freq) }, .ok [])
     | none => (s, .error .noGrid)
   | .makeSlp g t =>
     -- future / present split on the caller's grid object, then `portf.create_cost_samples(samples, timegrid)`
@@ -341,41 +418,67 @@ def Reachable (v : Version) (env : Env) (s : PyState) : Prop :=
 
 /-- the objects' own `timegrid` attributes: legitimate input of a call without grid argument -/
 structure Ptrs where
-  asset : Nat → Option Nat
-  sub   : Nat → Nat → Option Nat       -- wrapped assets
-  pf    : Option Nat
+  obj : Addr → Option Nat
+  pf  : Option Nat
 
 def ownPtrs (s : PyState) : Ptrs :=
-  { asset := fun a => (s.assets a).grid, sub := fun a i => (s.assets a).sub[i]?.bind (·.grid), pf := s.pf }
+  { obj := fun ad => (s.objs ad).grid, pf := s.pf }
 
 def usedOf (g : Nat) (start stop : Option Int) (freq : Option Nat) (wacc : Rat) : Used :=
   { grid := g, restricted := some (start, stop, freq), disc := some wacc }
 
-def pureAsset (x : Asset) (g : Nat) : List Used :=
-  match x with
-  | .plain p => [usedOf g p.start p.stop p.freq p.wacc]
-  | .scaled p b => [usedOf g (clipStart b.start p.start) (clipStop b.stop p.stop) b.freq b.wacc, usedOf g p.start p.stop p.freq p.wacc]
-  | .structured p inner => inner.map fun q => usedOf g (clipStart q.start p.start) (clipStop q.stop p.stop) q.freq q.wacc
+mutual
+/-- what the slots of grid `g` hold after the object tree (CURRENT window `s e` of its root) was set up with `timegrid = g` -/
+def lastWrite (g : Nat) : Asset → Option Int → Option Int → Used
+  | .plain p, s, e => usedOf g s e p.freq p.wacc
+  | .scaled p _, s, e => usedOf g s e p.freq p.wacc
+  | .structured p _ inner, s, e => lastWriteL g inner s e (usedOf g s e p.freq p.wacc)
+/-- the same for the inner assets of a wrapper with window `s e` (`d`: what the slots held before) -/
+def lastWriteL (g : Nat) : List Asset → Option Int → Option Int → Used → Used
+  | [], _, _, d => d
+  | c :: cs, s, e, _ => lastWriteL g cs s e (lastWrite g c (clipStart c.params.start s) (clipStop c.params.stop e))
+end
 
-/-- "the grid set before" of asset `a`: its own attribute; a scaled asset without one works on its base asset's -/
-def ownGrid (env : Env) (ptrs : Ptrs) (a : Nat) : Option Nat :=
-  match ptrs.asset a with
-  | some g => some g
-  | none => match env.asset a with
-    | .scaled _ _ => ptrs.sub a 0
-    | _ => none
+mutual
+/-- what the builders of the object tree should read on grid `g`, the root's CURRENT window being `s e`: every object its
+    own window clipped by the windows of all wrappers above it, its own frequency and wacc; a scaled asset after its base
+    asset; a linked asset, after its inner assets, what the LAST of them left -/
+def pureAt (g : Nat) : Asset → Option Int → Option Int → List Used
+  | .plain p, s, e => [usedOf g s e p.freq p.wacc]
+  | .scaled p b, s, e => pureAt g b (clipStart b.params.start s) (clipStop b.params.stop e) ++ [usedOf g s e p.freq p.wacc]
+  | .structured p linked inner, s, e =>
+    if linked && inner.length != 0 then pureList g inner s e ++ [lastWriteL g inner s e (usedOf g s e p.freq p.wacc)]
+    else pureList g inner s e
+def pureList (g : Nat) : List Asset → Option Int → Option Int → List Used
+  | [], _, _ => []
+  | c :: cs, s, e => pureAt g c (clipStart c.params.start s) (clipStop c.params.stop e) ++ pureList g cs s e
+end
+
+def pureAsset (x : Asset) (g : Nat) : List Used := pureAt g x x.params.start x.params.stop
+
+/-- the window the object at path `q` below `x` has while `x` (current window `s e`) is set up: its own window clipped by the
+    windows of all wrappers above it -/
+def effWin : Asset → List Nat → Option Int → Option Int → Win
+  | _, [], s, e => (s, e)
+  | x, i :: q, s, e => match x.subs[i]? with
+    | some c => effWin c q (clipStart c.params.start s) (clipStop c.params.stop e)
+    | none => (s, e)
+
+/-- "the grid set before" of the object at `ad`: its own attribute; a scaled asset without one works on its base asset's -/
+def ownGrid (P : Addr → Option Nat) : Asset → Addr → Option Nat
+  | .scaled _ b, ad => match P ad with
+    | some g => some g
+    | none => ownGrid P b (ad ++ [0])
+  | .plain _, ad => P ad
+  | .structured _ _ _, ad => P ad
 
 def setupPure (env : Env) (ptrs : Ptrs) : Call → Result
-  | .setup a arg =>
-    match (match arg with | some g => some g | none => ownGrid env ptrs a) with
-    | some g => .ok (pureAsset (env.asset a) g)
-    | none => .error .noGrid
-  | .setupSub a i arg =>
-    match (env.asset a).subs[i]? with
+  | .setup ad arg =>
+    match env.at ad with
     | none => .ok []
-    | some q =>
-      match (match arg with | some g => some g | none => ptrs.sub a i) with
-      | some g => .ok [usedOf g q.start q.stop q.freq q.wacc]
+    | some x =>
+      match (match arg with | some g => some g | none => ownGrid ptrs.obj x ad) with
+      | some g => .ok (pureAsset x g)
       | none => .error .noGrid
   | .setupPortfolio arg =>
     match (match arg with | some g => some g | none => ptrs.pf) with
@@ -383,15 +486,26 @@ def setupPure (env : Env) (ptrs : Ptrs) : Call → Result
     | none => .error .noGrid
   | .setupSplit _ tmp => .ok (tmp.flatMap fun t => (List.range env.length).flatMap fun a => pureAsset (env.asset a) t)
   | .setTimegrid _ _ => .ok []
-  | .setTimegridSub _ _ _ => .ok []
   | .dcf _ => .ok []
-  | .fillLevel a => match ptrs.asset a with | some _ => .ok [] | none => .error .noGrid
+  | .fillLevel a =>
+    match ptrs.obj [a] with | some _ => .ok [] | none => .error .noGrid
   | .makeSlp _ _ => .ok []
 
+mutual
+/-- the paths of all objects of a tree -/
+def Asset.paths : Asset → List (List Nat)
+  | .plain _ => [[]]
+  | .scaled _ b => [] :: b.paths.map (0 :: ·)
+  | .structured _ _ inner => [] :: pathsL inner 0
+def pathsL : List Asset → Nat → List (List Nat)
+  | [], _ => []
+  | c :: cs, i => c.paths.map (i :: ·) ++ pathsL cs (i + 1)
+end
+
 /-- what the documentation promises about the grid attributes after a call that names a grid: the portfolio, every
-    asset and every wrapped asset sit on `g` (used to state finding H3) -/
+    asset and every wrapped asset (at every depth) sit on `g` (used to state finding H3) -/
 def AllOn (env : Env) (s : PyState) (g : Nat) : Prop :=
-  s.pf = some g ∧ ∀ a, a < env.length → (s.assets a).grid = some g ∧ ∀ b ∈ (s.assets a).sub, b.grid = some g
+  s.pf = some g ∧ ∀ a, a < env.length → ∀ p ∈ (env.asset a).paths, (s.objs (a :: p)).grid = some g
 
 /-! ## interval data: the normal form `values_to_grid` used to leave behind in the caller's dict -/
 
